@@ -698,7 +698,17 @@ func peerstoreMalformed(c *fw.Ctx, r *fw.Rand, dir string) {
 			}
 		}
 	}
-	os.WriteFile(path, []byte(strings.Join(lines, "\n")+"\n"), 0o644)
+	// hand-written files: with or without a final newline, unix or dos line ends are not mixed in
+	content := strings.Join(lines, "\n")
+	ending := "newline"
+	if r.Bool() {
+		content += "\n"
+	} else {
+		ending = "no-final-newline"
+	}
+	kinds[ending] = true
+	ks = append(ks, ending)
+	os.WriteFile(path, []byte(content), 0o644)
 	lj, _ := json.Marshal(lines)
 	c.Journal("peerstore malformed %s", lj)
 	pm := pstoremgr.New(ctx, h, path)
